@@ -406,6 +406,90 @@ fn disturbance_part(ctx: &Ctx, res: &mut PartResult) {
     res.sample(json!({"disturbances": ["HalfRequest", "Reset"], "then": "GET /metrics from 127.0.0.1 must be served"}));
 }
 
+/// The exporter's own periodic upkeep task (drains histogram buckets every `upkeep_timeout`) running next to scrapes:
+/// all sequences over {record a sample, scrape, wait two upkeep periods} — a scrape always reports exactly the
+/// samples recorded so far (count and sum), i.e. upkeep and render together count every sample exactly once.
+fn upkeep_part(ctx: &Ctx, res: &mut PartResult, depth: usize) {
+    res.engine = "E4 sequences of {record, scrape, let the periodic upkeep task run} against a real exporter with a short upkeep timeout".into();
+    let mut states = vseq::States::new();
+    let period = Duration::from_millis(15);
+    let mut run = |seq: &[usize]| -> Option<usize> {
+        let port = {
+            let l = std::net::TcpListener::bind("127.0.0.1:0").unwrap();
+            l.local_addr().unwrap().port()
+        };
+        let addr: SocketAddr = format!("127.0.0.1:{}", port).parse().unwrap();
+        let b = PrometheusBuilder::new().with_http_listener(addr).upkeep_timeout(period).set_buckets(&[1.5, 10.0]).unwrap();
+        let rt = tokio::runtime::Builder::new_multi_thread().worker_threads(2).enable_all().build().unwrap();
+        let (rec, fut) = match rt.block_on(async { b.build() }) {
+            Ok(x) => x,
+            Err(e) => {
+                res.violation("exporter-failed-to-start", e.to_string(), json!({"seq": seq}));
+                return Some(0);
+            }
+        };
+        rt.spawn(fut);
+        let h = rec.register_histogram(&Key::from_name("up_h"), &META);
+        let mut n = 0u64;
+        let mut sum = 0.0f64;
+        // two final steps: let upkeep run, then scrape
+        let steps: Vec<usize> = seq.iter().cloned().chain([2, 1]).collect();
+        for (i, op) in steps.iter().enumerate() {
+            match op {
+                0 => {
+                    n += 1;
+                    h.record(n as f64);
+                    sum += n as f64;
+                }
+                2 => std::thread::sleep(period * 2 + Duration::from_millis(5)),
+                _ => {
+                    res.transitions += 1;
+                    let r = get_patient(Ipv4Addr::LOCALHOST, addr, "/metrics");
+                    let body = match r {
+                        Ok(r) if r.status == 200 => r.body,
+                        other => {
+                            res.violation("client-not-served", format!("after {:?}: {:?}", &steps[..i], other.map(|r| r.status)), json!({"seq": seq}));
+                            return Some(i.min(seq.len() - 1));
+                        }
+                    };
+                    let fams = match promtext::parse(&body) {
+                        Ok(f) => f,
+                        Err(e) => {
+                            res.violation("scrape-body-malformed", format!("{} in {:?}", e, body), json!({"seq": seq}));
+                            return Some(i.min(seq.len() - 1));
+                        }
+                    };
+                    let val = |sample: &str, le: Option<&str>| fams.iter().find(|f| f.name == "up_h").and_then(|f| f.samples.iter().find(|s| s.name == sample && le.map(|l| s.label("le") == Some(l)).unwrap_or(true))).map(|s| s.value_f64());
+                    let got = (val("up_h_count", None), val("up_h_sum", None), val("up_h_bucket", Some("1.5")), val("up_h_bucket", Some("+Inf")));
+                    let want = (Some(n as f64), Some(sum), Some(n.min(1) as f64), Some(n as f64));
+                    states.add(&format!("{:?}", got));
+                    if got != want {
+                        res.violation("scrape-body-is-not-the-current-rendering", format!("steps {:?} (0 record, 1 scrape, 2 wait for upkeep): scrape reports (count, sum, le=1.5, +Inf) = {:?}, recorded so far {:?}", &steps[..=i], got, want), json!({"seq": seq}));
+                        return Some(i.min(seq.len() - 1));
+                    }
+                }
+            }
+        }
+        drop(rt);
+        None
+    };
+    let mut total = 0;
+    for d in 1..=depth {
+        let (n, complete) = vseq::for_each_seq(3, d, &mut run, &|| ctx.over_budget());
+        total += n;
+        if !complete {
+            res.exhaustive = false;
+            res.cap_hit = Some("wall budget".into());
+            break;
+        }
+    }
+    res.executions = total;
+    res.states = states.len();
+    res.distinct_outcomes = states.len();
+    res.bound = json!({"max_depth": depth, "alphabet": ["record", "scrape", "wait 2 upkeep periods"], "upkeep_timeout_ms": 15, "then": "wait + scrape"});
+    res.sample(json!({"sequence": ["record", "wait", "record", "scrape"], "expected": "count 2, sum 3"}));
+}
+
 fn parts(ctx: &Ctx) -> Vec<PartSpec> {
     let b = if ctx.quick() { 50.0 } else { 1800.0 };
     let n = allowlists().len();
@@ -417,13 +501,17 @@ fn parts(ctx: &Ctx) -> Vec<PartSpec> {
         i += chunk;
     }
     v.push(PartSpec::new("disturbances", json!({"dist": true})).budget(b * 2.0));
+    let d = if ctx.quick() { 3 } else { 5 };
+    v.push(PartSpec::new(&format!("upkeep-task-d{}", d), json!({"upkeep": d})).budget(b));
     v
 }
 
 fn run(ctx: &Ctx, spec: &PartSpec) -> PartResult {
     let mut res = PartResult::new(&spec.name, "");
     vseq::quiet_panics();
-    if spec.arg["dist"].as_bool() == Some(true) {
+    if let Some(d) = spec.arg["upkeep"].as_u64() {
+        upkeep_part(ctx, &mut res, d as usize);
+    } else if spec.arg["dist"].as_bool() == Some(true) {
         disturbance_part(ctx, &mut res);
     } else if spec.arg["lists"].as_str() == Some("none") {
         matrix_part(ctx, &mut res, vec![None]);
@@ -440,7 +528,7 @@ fn main() {
     driver::main(CheckDef {
         prop: "C18",
         level: "fault_enumeration",
-        rule: "allowlists = none and all subsets of size 1-2 of {127.0.0.1 (plain address), 127.0.0.2/32, 127.0.0.0/30, 127.0.1.0/24, 10.0.0.0/8, ::1/128} x peers bound to {127.0.0.1,.2,.3,.4, 127.0.1.0, 127.0.1.255, 127.0.2.0, 127.1.1.1} x paths {/, /metrics, /health, /healthz}, one request each against a fresh real exporter (builder.build() on a tokio runtime); oracle: independent CIDR arithmetic; inside => 200 and the body parses (strict parser) to exactly the recorded state, /health => OK; outside => 403 with an empty body; plus all disturbance sequences of length <= 2 over {garbage bytes, half a request then idle, connect + RST, 8 concurrent scrapers, 4 refused scrapes} each followed by probes that must be served; distinct_nontrivial = distinct (allowlist, peer, outcome) / (sequence, outcome) cases",
+        rule: "allowlists = none and all subsets of size 1-2 of {127.0.0.1 (plain address), 127.0.0.2/32, 127.0.0.0/30, 127.0.1.0/24, 10.0.0.0/8, ::1/128} x peers bound to {127.0.0.1,.2,.3,.4, 127.0.1.0, 127.0.1.255, 127.0.2.0, 127.1.1.1} x paths {/, /metrics, /health, /healthz}, one request each against a fresh real exporter (builder.build() on a tokio runtime); oracle: independent CIDR arithmetic; inside => 200 and the body parses (strict parser) to exactly the recorded state, /health => OK; outside => 403 with an empty body; plus all disturbance sequences of length <= 2 over {garbage bytes, half a request then idle, connect + RST, 8 concurrent scrapers, 4 refused scrapes} each followed by probes that must be served; plus all sequences (depth <= 3 quick / 5 thorough) over {record, scrape, wait for the exporter's periodic upkeep task (15 ms period)}: every scrape reports exactly the samples recorded so far; distinct_nontrivial = distinct (allowlist, peer, outcome) / (sequence, outcome) cases",
         assumptions: &["tokio / hyper task scheduling runs free: request histories are enumerated, not the server's internal interleavings", "a response is awaited 3 s and then once more for 30 s before 'not served' is reported"],
         parts,
         run,
